@@ -33,6 +33,10 @@ def run(prog: Program, rep: Report, tier: str):
     rule_block(prog, rep)
     rule_constructor(prog, rep)
     rule_positive_diagonal(prog, rep)
+    # the block masks / positive diagonal are Where / reparameterisation nodes nested inside WeightNormalization: they
+    # hold for all weights only while every wrapper keeps the wrapped tree it is given
+    from .c12 import rule_wrapper_ctors_keep_wrappers
+    rule_wrapper_ctors_keep_wrappers(prog, rep, "C09.kept")
     if tier == "thorough":
         from ..audit import audit_generic
         audit_generic(prog, rep, "C09")
